@@ -646,6 +646,12 @@ struct Classified { std::string key, minimal; Diff diff; };
 
 // Names the library mechanism a node of a (minimal) failing expression runs into, "" if none of the ones met
 // so far.  Everything here only chooses the violation key; it never decides whether something is a violation.
+// Mechanisms whose canonical one-line witness fails in the library this harness is linked with (probed once at
+// start-up, see probeMechanisms).  Only these are used as names, and only these are avoided by avoid_known=1:
+// once a defect is repaired its name can no longer claim (or hide) anything.
+static std::set<std::string> ACTIVE;
+static bool active(const char* k) { return ACTIVE.count(k) > 0; }
+
 struct Mechanisms {
     const World& w; char dom; const Ast& a; RefEval e;
     Mechanisms(const World& w_, char dom_, const Ast& a_, bool literalsAreSets) : w(w_), dom(dom_), a(a_), e(w_, dom_, a_, literalsAreSets) {}
@@ -654,9 +660,9 @@ struct Mechanisms {
     std::string at(int idx) {
         const Node& nd = a.n[idx];
         if (nd.kind == FUNC) {
-            if (nd.s == "UNDEF") return "undef-function-untyped-result";
+            if (nd.s == "UNDEF" && active("undef-function-untyped-result")) return "undef-function-untyped-result";
             Val A = operand(nd.a);
-            if (in(REDUCTIONS, nd.s) && !A.v.empty() && A.ndef() == 0) return "reduction-of-all-undefined";
+            if (in(REDUCTIONS, nd.s) && !A.v.empty() && A.ndef() == 0 && active("reduction-of-all-undefined")) return "reduction-of-all-undefined";
             return "";
         }
         if (nd.kind != BIN) return "";
@@ -665,7 +671,7 @@ struct Mechanisms {
         if (L.v.empty() || R.v.empty()) return "";
         const std::string kl = shape(nd.a, L), kr = shape(nd.b, R);
         const bool mixed = (kl == "set") != (kr == "set");
-        if (cls == "muldiv") {
+        if (cls == "muldiv" && active("pow-followed-by-mul-div")) {
             // does an unparenthesised ^ stand in front of a * or / of this chain?  (every operand but the last)
             std::vector<int> todo{nd.a};
             while (!todo.empty()) {
@@ -675,17 +681,17 @@ struct Mechanisms {
                 if (opClass(a.n[x].s) == "muldiv") { todo.push_back(a.n[x].a); todo.push_back(a.n[x].b); }
             }
         }
-        if (mixed && (kl == "undefined-scalar" || kr == "undefined-scalar") && (cls == "addsub" || cls == "muldiv" || cls == "cmp")) return "undefined-scalar-combined-with-set";
-        if (cls == "pow" && mixed) return "pow-scalar-with-set";
-        if (cls == "union" && mixed) return "union-scalar-with-set";
+        if (mixed && (kl == "undefined-scalar" || kr == "undefined-scalar") && (cls == "addsub" || cls == "muldiv" || cls == "cmp") && active("undefined-scalar-combined-with-set")) return "undefined-scalar-combined-with-set";
+        if (cls == "pow" && mixed && active("pow-scalar-with-set")) return "pow-scalar-with-set";
+        if (cls == "union" && mixed && active("union-scalar-with-set")) return "union-scalar-with-set";
         const size_t n = std::max(L.size(), R.size());
         for (size_t k = 0; k < n; ++k) {
             const size_t ka = L.set ? k : 0, kb = R.set ? k : 0;
-            if (cls == "pow" && L.d[ka] && !R.d[kb]) return "pow-undefined-operand";
+            if (cls == "pow" && L.d[ka] && !R.d[kb] && active("pow-undefined-operand")) return "pow-undefined-operand";
             if (cls == "cmp" && nd.s != "<" && nd.s != ">" && L.d[ka] && R.d[kb]) {
                 // (left operand zero, or so small that (lhs - rhs) / lhs overflows)
-                if (L.v[ka] != R.v[kb] && (L.v[ka] == 0 || !std::isfinite((L.v[ka] - R.v[kb]) / L.v[ka]))) return "cmp-zero-lhs";
-                if (L.v[ka] < 0 && L.v[ka] != R.v[kb] && (nd.s == "<=" || nd.s == ">=")) return "cmp-le-ge-negative-lhs";
+                if (L.v[ka] != R.v[kb] && (L.v[ka] == 0 || !std::isfinite((L.v[ka] - R.v[kb]) / L.v[ka])) && active("cmp-zero-lhs")) return "cmp-zero-lhs";
+                if (L.v[ka] < 0 && L.v[ka] != R.v[kb] && (nd.s == "<=" || nd.s == ">=") && active("cmp-le-ge-negative-lhs")) return "cmp-le-ge-negative-lhs";
             }
         }
         return "";
@@ -694,7 +700,7 @@ struct Mechanisms {
     std::string anywhere() { auto r = all(); return r.empty() ? "" : r[0]; }
 };
 
-static Classified classify(const World& w, RealWorld& rw, char dom, char targetKind, const Tokens& t, const RefResult& ref, const Diff& whole) {
+static Classified classify(const World& w, RealWorld& rw, char dom, char targetKind, const Tokens& t, const Diff& whole) {
     // candidates: every sub-expression (contiguous token span of a node of the reference tree, in either
     // reading of comparison / union chains), small first
     std::set<std::pair<int, int>> spans;
@@ -749,7 +755,7 @@ static Classified classify(const World& w, RealWorld& rw, char dom, char targetK
             const Node& lhs = a.n[top.a];
             Tokens sub(minTok.begin() + lhs.t0, minTok.begin() + lhs.t1);
             RealOut lo = realEvaluate(rw, targetName(dom), sub);
-            if (!lo.threw) for (size_t k = 0; k < lo.v.size(); ++k) if (lo.d[k] && lo.v[k] == 0) { c.key = "cmp-zero-lhs"; return c; }
+            if (!lo.threw && active("cmp-zero-lhs")) for (size_t k = 0; k < lo.v.size(); ++k) if (lo.d[k] && lo.v[k] == 0) { c.key = "cmp-zero-lhs"; return c; }
         }
     }
     // 3. the smallest failing expression contains a construct with a known mechanism in an operand that
@@ -778,6 +784,38 @@ static Classified classify(const World& w, RealWorld& rw, char dom, char targetK
     else if (top.kind == QTY) c.key = "quantity:" + std::string(1, top.s[0]) + (isUdqName(top.s) ? "-udq" : "-summary") + (!top.hasSel ? "" : top.sel.find('*') != std::string::npos ? "-wildcard" : "-named") + ":" + sym;
     else c.key = std::string(top.kind == NUM ? "number" : "sign") + ":" + sym;
     return c;
+}
+
+// one canonical witness per mechanism, evaluated by both sides exactly like a generated case
+static void probeMechanisms(vh::Reporter& rep) {
+    World w;
+    w.wells = {"P1", "P2", "P3"}; w.groups = {"G1"};
+    w.wq["WOPR"] = {{"P1", 1.0}, {"P2", 2.0}, {"P3", 3.0}};
+    w.wq["WWPR"] = {{"P1", 10.0}, {"P2", 20.0}};                 // undefined for P3
+    w.gq["GOPR"] = {{"G1", 1.0}};
+    w.fq["FOPR"] = 2.0;                                           // FU9 and WU9 are undefined
+    struct Probe { const char* key; char target; Tokens t; };
+    const std::vector<Probe> probes = {
+        {"pow-followed-by-mul-div", 'F', {"2", "^", "3", "*", "4"}},
+        {"pow-scalar-with-set", 'W', {"WOPR", "^", "FOPR"}},
+        {"pow-undefined-operand", 'W', {"WOPR", "^", "WWPR"}},
+        {"undefined-scalar-combined-with-set", 'W', {"WOPR", "+", "FU9"}},
+        {"union-scalar-with-set", 'W', {"WOPR", "UADD", "FOPR"}},
+        {"cmp-zero-lhs", 'F', {"0", "<=", "1"}},
+        {"cmp-le-ge-negative-lhs", 'F', {"-", "2", "<=", "-", "1"}},
+        {"reduction-of-all-undefined", 'F', {"SUM", "(", "WU9", ")"}},
+        {"undef-function-untyped-result", 'W', {"UNDEF", "(", "WWPR", ")"}},
+    };
+    RealWorld rw(w);
+    for (const auto& p : probes) {
+        try {
+            RefResult r = referenceEvaluate(w, 'W', p.t, p.target != 'F');
+            RealOut ro = realEvaluate(rw, targetName(p.target), p.t);
+            if (!compare(w, 'W', p.target, r, ro).symptom.empty()) { ACTIVE.insert(p.key); rep.cover("mechanism_probe_fails_in_this_library", std::string(p.key) + "  [" + targetName(p.target) + " = " + join(p.t) + "]"); }
+            else rep.cover("mechanism_probe_passes_in_this_library", p.key);
+        }
+        catch (const Guard& g) { throw std::logic_error(std::string("probe not decidable: ") + p.key + " " + g.why); }
+    }
 }
 
 // =============================================================================================
@@ -1043,7 +1081,7 @@ static void expressionCase(vh::Reporter& rep, long idx, long eidx, Rng& rng) {
         rep.violation("define-refused", "a DEFINE from the documented grammar is refused: " + real.msg, caseText + "library: " + real.text());
         return;
     }
-    Classified c = classify(w, rw, dom, targetKind, t, ref, df);
+    Classified c = classify(w, rw, dom, targetKind, t, df);
     std::ostringstream o;
     o << "smallest failing sub-expression `" << c.minimal << "`: " << c.diff.symptom << " (" << c.diff.detail << ")";
     rep.violation(c.key, o.str(), caseText + "library: " + real.text() + "\nwhole expression: " + df.symptom + " (" + df.detail + ")\n" + o.str() + "\ncase index " + std::to_string(idx));
@@ -1316,6 +1354,7 @@ int main(int argc, char** argv) {
     const long histEvery = args.geti("hist_every", 41);       // coprime with the shard count
     AVOID_KNOWN = args.geti("avoid_known", 0) != 0;
     DEBUG_TOL = args.getd("debug_tol", 0);
+    probeMechanisms(rep);
     rep.run_cases([&](long idx, Rng& rng) {
         if (histEvery > 0 && idx % histEvery == histEvery - 1) historyCase(rep, idx, rng);
         else expressionCase(rep, idx, histEvery > 0 ? idx - idx / histEvery : idx, rng);
